@@ -497,6 +497,36 @@ def run(ctx):
         except Exception:  # noqa: BLE001
             pass
     model_write_doc(ctx, withopts + [xml_opts_variants(rng, d) for d in (dicts[: ctx.n(150, 1500)] + parsed[: ctx.n(100, 1000)])])
+    # sessions: ONE XmlParser object over several documents (absent / default / prefixed namespace in any order), string
+    # route and file route: every result is that of a fresh parser
+    for i in range(ctx.n(40, 600)):
+        seq = [rng.choice(xmls) for _ in range(rng.randrange(2, 5))]
+        ps = dictIO.XmlParser()
+        tmpd = native.scratch_dir("c11s_")
+        try:
+            for j, xml in enumerate(seq):
+                try:
+                    native.set_counter(-1)
+                    fresh = gen.plain(dict(dictIO.XmlParser().parse_string(xml, dictIO.SDict())))
+                    native.set_counter(-1)
+                    if (i + j) % 3 == 0:
+                        f = tmpd / f"d{j}.xml"
+                        f.write_text(xml)
+                        got = gen.plain(dict(dictIO.DictReader.read(f, parser=ps)))
+                        native.set_counter(-1)
+                        fresh = gen.plain(dict(dictIO.DictReader.read(f)))
+                    else:
+                        got = gen.plain(dict(ps.parse_string(xml, dictIO.SDict())))
+                except Exception as e:  # noqa: BLE001
+                    got, fresh = ("raise", type(e).__name__), None
+                if got != fresh:
+                    c = {"kind": "doc-session", "xmls": seq[: j + 1], "xml": xml}
+                    diff = {k: (got.get(k), fresh.get(k)) for k in set(got) | set(fresh) if got.get(k) != fresh.get(k)} if isinstance(got, dict) and isinstance(fresh, dict) else (got, fresh)
+                    ctx.oracle_fail(c, "session", f"document {j} of a session with one XmlParser object reads differently from a fresh parser: {str(diff)[:400]}")
+                    break
+        finally:
+            shutil.rmtree(tmpd, ignore_errors=True)
+        ctx.count(("ds", i, tuple(seq)), True, "doc-session")
     for k in ("doc:none", "doc:default", "doc:prefixed", "dict"):
         if ctx.classes[k] == 0:
             raise RuntimeError("generator starved")
